@@ -5378,6 +5378,7 @@ impl<Front: SocketHandler> ConnectionH2<Front> {
         let parts = &mut stream.split(&self.position);
         let was_initial = parts.rbuffer.is_initial();
         let elide_x_real_ip = parts.context.elide_x_real_ip;
+        let blocks_before = parts.rbuffer.blocks.len();
         let status = pkawa::handle_header(
             &mut self.decoder,
             &mut self.prioriser,
@@ -5391,6 +5392,29 @@ impl<Front: SocketHandler> ConnectionH2<Front> {
             elide_x_real_ip,
         );
         kawa.storage.clear();
+        if status.is_ok() && !was_initial && self.position.is_server() {
+            // A request trailer section cannot carry what sozu itself writes
+            // or vouches for in the header section (RFC 9110 section 6.5.1):
+            // `handle_trailer` already drops the client-address fields and the
+            // request id; the listener's correlation header (its name is
+            // configuration) and X-Forwarded-Proto / -Port go the same way,
+            // as they do for HTTP/1.1 trailers.
+            let buf = parts.rbuffer.storage.buffer();
+            for block in parts.rbuffer.blocks.iter_mut().skip(blocks_before) {
+                if let kawa::Block::Header(header) = block {
+                    if header.is_elided() {
+                        continue;
+                    }
+                    let key = header.key.data(buf);
+                    if key.eq_ignore_ascii_case(parts.context.sozu_id_header.as_bytes())
+                        || key.eq_ignore_ascii_case(b"x-forwarded-proto")
+                        || key.eq_ignore_ascii_case(b"x-forwarded-port")
+                    {
+                        header.elide();
+                    }
+                }
+            }
+        }
         if let Err((error, global)) = status {
             match self.position {
                 Position::Client(..) => incr!(names::http::BACKEND_PARSE_ERRORS),
